@@ -16,7 +16,11 @@ func (c *Client) expandCID(rid string) string {
 // onRequest is called for every request crossing the seam.
 func (s *Sim) onRequest(r *Req) {
 	// C09.a: a resource is requested only under an event subscription made earlier
-	if r.Type == "get" && !r.EventSubbed {
+	if r.Type == "get" && !r.EventSubbed && len(s.W.Resets) > 0 && s.hadSubscription(r.Name) {
+		// known finding F-23: a reset re-fetch holds no use count; waiting in the
+		// reset throttle (or for its cache worker) it can outlive the entry
+		s.violate("C09", "a", "refetch-after-eviction", "get request %s (a system reset re-fetch) sent after event.%s had been unsubscribed", r.ID, r.Name)
+	} else if r.Type == "get" && !r.EventSubbed {
 		s.violate("C09", "a", "get-without-subscription", "get request %s sent while event.%s is not subscribed", r.ID, r.Name)
 	}
 	// C11.a: nothing is requested on behalf of a connection after its disposal
@@ -36,6 +40,18 @@ func (s *Sim) onRequest(r *Req) {
 	s.accessOnRequest(r)
 	s.throttleOnRequest(r)
 	s.isolationOnRequest(r)
+}
+
+// hadSubscription: event.<name> was subscribed at some earlier time.
+func (s *Sim) hadSubscription(name string) bool {
+	s.mu.Lock()
+	defer s.mu.Unlock()
+	for _, ev := range s.tr.Log {
+		if ev.Kind == "sub" && ev.NS == "event."+name {
+			return true
+		}
+	}
+	return false
 }
 
 // oracleOnHandOver is called when a response hands resource rid to client c as
@@ -173,7 +189,12 @@ func (s *Sim) stepInvariants() {
 	}
 	for _, ev := range log[from:] {
 		if (ev.Kind == "req" || ev.Kind == "dlv") && ev.Req != nil && ev.Req.Name != "" && ev.Req.Type != "query" {
-			s.lastUse[ev.Req.Name] = time.Duration(ev.Time)
+			s.mu.Lock()
+			skip := ev.Req.Type == "get" && !s.initialGet(ev.Req)
+			s.mu.Unlock()
+			if !skip {
+				s.lastUse[ev.Req.Name] = time.Duration(ev.Time)
+			}
 		}
 	}
 	for name := range s.namesRequested() {
@@ -195,6 +216,9 @@ func (s *Sim) namesRequested() map[string]string {
 	s.mu.Lock()
 	for _, r := range s.tr.reqs {
 		if !r.Delivered && r.Name != "" && r.Type != "query" {
+			if r.Type == "get" && !s.initialGet(r) {
+				continue // a reset re-fetch holds no use count (see F-23)
+			}
 			use[r.Name] = "request " + r.ID + " is pending"
 		}
 	}
@@ -311,6 +335,9 @@ func (s *Sim) oracleQuiescence() {
 		}
 	}
 	s.accessQuiescence()
+	s.queryQuiescence()
+	s.resetQuiescence()
+	s.refetchQuiescence()
 	s.checkGauges(false)
 }
 
@@ -352,6 +379,19 @@ func (s *Sim) unansweredShape(c *Client, r *CReq) string {
 	}
 	if (r.Action == "call" || r.Action == "new") && s.callAccessDropped(c, r) {
 		return "call-access-callback-dropped"
+	}
+	if r.Action == "subscribe" || r.Action == "get" {
+		// known finding F-26: the resource was deleted (delete event, or a
+		// not-found answer to a query request or reset re-fetch) while this
+		// request was waiting for its get response; the waiting subscriber is
+		// forgotten together with the loaded ones
+		if res, v := s.W.lookup(c.expandCID(r.RID)); res != nil && v != nil {
+			for _, e := range v.Stream {
+				if e.Kind == "delete" && e.EmitStep >= r.Step {
+					return "deleted-while-loading"
+				}
+			}
+		}
 	}
 	return "plain"
 }
@@ -505,12 +545,20 @@ func (s *Sim) checkConvergence(c *Client) {
 			c.violate("C01", "a", "no-source", "client %s holds data for %s which the service never announced", c.Name, rid)
 			continue
 		}
+		if v.Deleted && !v.deleteAnnounced() {
+			s.stat("exempt.silently_deleted", 1)
+			continue
+		}
 		if v.Deleted {
 			c.violate("C03", "d", "delete-lost", "client %s still holds %s as live although the service deleted it and everything has been delivered", c.Name, rid)
 			continue
 		}
 		if s.refetchFailed[v] {
 			s.stat("exempt.refetch_failed", 1)
+			continue
+		}
+		if v.Dirty {
+			s.stat("exempt.silently_mutated", 1)
 			continue
 		}
 		if byte(h.Kind) != v.Announced.Kind {
